@@ -286,6 +286,10 @@ func Gen(o GenOpts) *rapid.Generator[Script] {
 		if o.StopOps && s.Ver == 1 && s.Simple {
 			s.HandleLag = pick(t, "handlelag", int64(0), 0, 7, 40)
 		}
+		if o.StopOps && s.Ver == 1 && rapid.IntRange(0, 15).Draw(t, "precancel") == 1 {
+			s.PreCancel = true
+			s.Epilogue = "none"
+		}
 		if o.StopOps && s.Ver == 1 && (!o.StopHalf || rapid.Bool().Draw(t, "stopped")) {
 			stopAt = rapid.IntRange(0, nops).Draw(t, "stopat")
 			s.Epilogue = "none"
